@@ -44,6 +44,8 @@ def check(run):
                         'session socket bookkeeping alone (only _close_socket/close null it)', 4)
     R.rule('C14.lazy', 'frames are handed on one by one: a Ping parsed before a later bad frame in the same read is still '
                        'delivered and answered', 5)
+    from . import C04 as _C04f
+    _C04f.frame_fresh(R, 'C14.lazy')
     from . import C09, C04
     from .common import lazy_pipeline
     lazy_pipeline(R, 'C14.lazy')
